@@ -128,6 +128,52 @@ theorem len_getitem {α : Type} (parts : List α) (s : State) (i : Int) :
       have : parts[i.toNat]? = none := List.getElem?_eq_none_iff.mpr (by omega)
       simp [step, pyIndex, h0, this]
 
+/-- **assignment is seen consistently by indexing, len and iteration**: after `c[i] = a` with a valid index,
+    `c[i]` is `a`, every other index and the length are unchanged, and a fresh iteration yields exactly the new
+    part list in order (whatever other calls are interleaved) -/
+theorem set_consistent {α : Type} (parts ps : List α) (i : Int) (a : α) (h : setItem parts i a = some ps) :
+    ps.length = parts.length ∧ pyIndex ps i = some a ∧
+    (∀ s : State, ∀ ops : List Op,
+      nextOutputs s.cursors.length ops (run ps (step ps s Op.iter).1 ops).2
+        = (List.range (countNext s.cursors.length ops)).map (expected ps)) := by
+  refine ⟨?_, ?_, fun s ops => fresh_visits_once ps s ops⟩
+  · unfold setItem at h
+    split at h
+    · split at h
+      · cases h; simp
+      · cases h
+    · split at h
+      · cases h; simp
+      · cases h
+  · unfold setItem at h
+    unfold pyIndex
+    split at h
+    · rename_i h0
+      split at h
+      · rename_i hlt
+        cases h
+        simp [h0, hlt]
+      · cases h
+    · rename_i h0
+      split at h
+      · rename_i hle
+        cases h
+        have hlt : parts.length - (-i).toNat < parts.length := by omega
+        simp [h0, hle, hlt]
+      · cases h
+
+/-- an out-of-range assignment is rejected and changes nothing -/
+theorem set_rejects {α : Type} (parts : List α) (i : Int) (a : α)
+    (h : i < -(parts.length : Int) ∨ (parts.length : Int) ≤ i) : setItem parts i a = none := by
+  unfold setItem
+  rcases h with h | h
+  · have h0 : ¬ (0 ≤ i) := by omega
+    have h1 : ¬ (-i ≤ (parts.length : Int)) := by omega
+    simp [h0, h1]
+  · have h0 : 0 ≤ i := by omega
+    have h1 : ¬ (i.toNat < parts.length) := by omega
+    simp [h0, h1]
+
 /-- the shared-cursor design (the code before the repair) violates the property: with two parts,
     an inner iteration started after the outer loop took its first item makes the outer loop
     lose parts[1] -/
